@@ -843,6 +843,15 @@ def main_wrapper(prop: str, body: Callable[[str, int], int]) -> None:
     ap.add_argument('--replay', default=None)
     ns = ap.parse_args(sys.argv[2:] if len(sys.argv) > 1 and sys.argv[1] == prop else sys.argv[1:])
     seed = int(os.environ.get('VERIF_SEED', '0') or 0)
+    if ns.tier == 'thorough':
+        # the thorough tier can afford patient solvers: the widest instantiations (w = 64 memory equalities) sit near
+        # the quick budget when all cores are busy, and a timeout must never decide anything (workers are forked
+        # later and inherit these)
+        global Z3_TIMEOUT_MS, CVC5_TIMEOUT_S
+        if 'VERIF_Z3_TIMEOUT_MS' not in os.environ:
+            Z3_TIMEOUT_MS *= 4
+        if 'VERIF_CVC5_TIMEOUT_S' not in os.environ:
+            CVC5_TIMEOUT_S *= 4
     try:
         rc = body(ns.tier, seed) if ns.replay is None else body('replay:' + ns.replay, seed)
     except Undecided as u:
